@@ -117,6 +117,9 @@ def run(ck, rng, tier):
             Y = Y * yunit
             ck.count("responses in units of %g" % yunit)
         nth = rng.choice((1, 2, 3, 4, 8))
+        if c < len(FORCED) and scheme == "kfold":
+            # user labels with a gap (3 is unused) and worker batches in which the unused label is not the last one (3, 5 or 8 workers)
+            nth = (3, 8, 5)[c % 3]
         ck.count("%s %s" % (scheme, ALGOS[algo]))
         head = "%d %d %s %s" % (algo, nlv, vf.fmt_mat(X.tolist(), m), vf.fmt_mat(Y.tolist(), ny))
         Y2 = Y.copy()
